@@ -9,6 +9,7 @@ import Driver.C12
 import Driver.C19
 import Driver.C17
 import Driver.C07
+import Driver.C05
 /-!
 `sfdriver`: executable models behind a line protocol.  One request per line
 (`<model> <op> <args…>`), one reply line per request.  Core-only (no Mathlib below this file).
@@ -27,6 +28,7 @@ def dispatch (ws : List String) : String :=
   | "c19" :: rest => Driver.C19.handle rest
   | "c17" :: rest => Driver.C17.handle rest
   | "c07" :: rest => Driver.C07.handle rest
+  | "c05" :: rest => Driver.C05.handle rest
   | _ => "bad-op"
 
 partial def loop (hin : IO.FS.Stream) (hout : IO.FS.Stream) : IO Unit := do
